@@ -1,8 +1,11 @@
 import Pun.Model.Iso
+import Pun.Lemmas.Hull
+import Pun.Lemmas.PBoxFrechet
 import Mathlib.Data.List.Sort
 import Mathlib.Data.List.Perm.Basic
 import Mathlib.Tactic.Linarith
 import Mathlib.Algebra.Order.Field.Rat
+import Mathlib.Data.List.Forall2
 /-!
 # Lemmas for C12: order statistics are monotone
 
@@ -12,7 +15,7 @@ has pointwise-smaller sort) are the kernel-checked proofs of DESIGN.md Appendix 
 set_option linter.unusedSimpArgs false
 set_option linter.unusedVariables false
 namespace Pun.Iso
-open Pun List
+open Pun List Pun.PBox
 
 /-- in a sorted list, the prefix of elements `≤ c` is exactly `takeWhile`; rank characterisation -/
 theorem sorted_get_le_iff (s : List ℚ) (hs : s.Pairwise (· ≤ ·)) (c : ℚ) (i : ℕ) (hi : i < s.length) :
@@ -81,5 +84,730 @@ theorem sort_mono (l l' s s' : List ℚ) (hlen : l.length = l'.length)
         · simp only [h, decide_false, Bool.false_eq_true, if_false, add_zero]
           exact le_trans ht (Nat.le_add_right _ _)
   omega
+
+/-! ## pointwise order of lists -/
+
+/-- pointwise `≤` of two lists (same length) -/
+abbrev LE (l l' : List Rat) : Prop := List.Forall₂ (· ≤ ·) l l'
+
+theorem LE.refl (l : List Rat) : LE l l := List.forall₂_refl l
+
+theorem LE.trans {a b c : List Rat} (h1 : LE a b) (h2 : LE b c) : LE a c := by
+  induction h1 generalizing c with
+  | nil => cases h2; exact List.Forall₂.nil
+  | cons hab _ ih =>
+    cases h2 with
+    | cons hbc htl => exact List.Forall₂.cons (le_trans hab hbc) (ih htl)
+
+theorem LE_iff_get {l l' : List Rat} :
+    LE l l' ↔ l.length = l'.length ∧ ∀ i (h : i < l.length) (h' : i < l'.length), l[i] ≤ l'[i] := by
+  unfold LE
+  rw [List.forall₂_iff_get]
+  simp
+
+theorem leL_iff (l l' : List Rat) : leL l l' = true ↔ LE l l' := by
+  induction l generalizing l' with
+  | nil => cases l' <;> simp [leL, LE]
+  | cons a s ih =>
+    cases l' with
+    | nil => simp [leL, LE]
+    | cons b t => simp [leL, LE, ih t]
+
+theorem sortR_perm (l : List Rat) : (sortR l).Perm l := List.mergeSort_perm l _
+
+theorem sortR_sorted (l : List Rat) : (sortR l).Pairwise (· ≤ ·) := by
+  have := List.pairwise_mergeSort (le := fun a b : Rat => decide (a ≤ b))
+    (fun a b c h1 h2 => by simp at h1 h2 ⊢; exact le_trans h1 h2)
+    (fun a b => by simp; exact le_total a b) l
+  exact this.imp (fun h => by simpa using h)
+
+theorem sortR_length (l : List Rat) : (sortR l).length = l.length := (sortR_perm l).length_eq
+
+/-- **sorting is monotone**: pointwise-smaller list has pointwise-smaller sort -/
+theorem sortR_mono {l l' : List Rat} (h : LE l l') : LE (sortR l) (sortR l') := by
+  rw [LE_iff_get] at h ⊢
+  obtain ⟨hlen, hle⟩ := h
+  refine ⟨by rw [sortR_length, sortR_length, hlen], fun i hi hi' => ?_⟩
+  exact sort_mono l l' (sortR l) (sortR l') hlen (fun j hj => hle j hj (hlen ▸ hj))
+    (sortR_perm l) (sortR_perm l') (sortR_sorted l) (sortR_sorted l') i hi hi'
+
+theorem LE.map {f : Rat → Rat} (hf : ∀ x y, x ≤ y → f x ≤ f y) {l l' : List Rat} (h : LE l l') :
+    LE (l.map f) (l'.map f) := by
+  induction h with
+  | nil => exact List.Forall₂.nil
+  | cons hab _ ih => exact List.Forall₂.cons (hf _ _ hab) ih
+
+theorem LE.map_anti {f : Rat → Rat} (hf : ∀ x y, x ≤ y → f y ≤ f x) {l l' : List Rat} (h : LE l l') :
+    LE (l'.map f) (l.map f) := by
+  induction h with
+  | nil => exact List.Forall₂.nil
+  | cons hab _ ih => exact List.Forall₂.cons (hf _ _ hab) ih
+
+theorem LE.reverse {l l' : List Rat} (h : LE l l') : LE l.reverse l'.reverse :=
+  List.forall₂_reverse_iff.mpr h
+
+theorem LE.take {l l' : List Rat} (h : LE l l') (n : Nat) : LE (l.take n) (l'.take n) := List.forall₂_take n h
+theorem LE.drop {l l' : List Rat} (h : LE l l') (n : Nat) : LE (l.drop n) (l'.drop n) := List.forall₂_drop n h
+
+theorem LE.zipWith {f : Rat → Rat → Rat} (hf : ∀ p p' q q', p ≤ p' → q ≤ q' → f p q ≤ f p' q')
+    {a a' b b' : List Rat} (ha : LE a a') (hb : LE b b') : LE (List.zipWith f a b) (List.zipWith f a' b') := by
+  induction ha generalizing b b' with
+  | nil => simp
+  | cons hxy _ ih =>
+    cases hb with
+    | nil => simp
+    | cons hcd htl => simp only [List.zipWith_cons_cons]; exact List.Forall₂.cons (hf _ _ _ _ hxy hcd) (ih htl)
+
+theorem foldl_max_mono {l l' : List Rat} (h : LE l l') (x x' : Rat) (hx : x ≤ x') :
+    l.foldl max x ≤ l'.foldl max x' := by
+  induction h generalizing x x' with
+  | nil => simpa using hx
+  | cons hab _ ih => simp only [List.foldl_cons]; exact ih _ _ (max_le_max hx hab)
+
+theorem foldl_min_mono {l l' : List Rat} (h : LE l l') (x x' : Rat) (hx : x ≤ x') :
+    l.foldl min x ≤ l'.foldl min x' := by
+  induction h generalizing x x' with
+  | nil => simpa using hx
+  | cons hab _ ih => simp only [List.foldl_cons]; exact ih _ _ (min_le_min hx hab)
+
+theorem maxL_mono {l l' : List Rat} (h : LE l l') (d : Rat) : maxL d l ≤ maxL d l' := by
+  cases h with
+  | nil => simp [maxL]
+  | cons hab htl => exact foldl_max_mono htl _ _ hab
+
+theorem minL_mono {l l' : List Rat} (h : LE l l') (d : Rat) : minL d l ≤ minL d l' := by
+  cases h with
+  | nil => simp [minL]
+  | cons hab htl => exact foldl_min_mono htl _ _ hab
+
+/-! ## containment of p-boxes; the combination rules of `operation.py` are isotone -/
+
+/-- `P ⊑ Q`: `Q` contains `P` (lower left bound, higher right bound, step by step) -/
+def PSub (P Q : PB) : Prop := LE Q.left P.left ∧ LE P.right Q.right
+
+theorem pbSub_iff (P Q : PB) : pbSub P Q = true ↔ PSub P Q := by
+  simp [pbSub, PSub, leL_iff]
+
+theorem PSub.refl (P : PB) : PSub P P := ⟨LE.refl _, LE.refl _⟩
+theorem PSub.trans {P Q R : PB} (h1 : PSub P Q) (h2 : PSub Q R) : PSub P R :=
+  ⟨LE.trans h2.1 h1.1, LE.trans h1.2 h2.2⟩
+
+/-- the same for the raw `(left, right)` pairs returned by the combination rules -/
+def PairSub (p q : List Rat × List Rat) : Prop := LE q.1 p.1 ∧ LE p.2 q.2
+
+theorem LE_map_of_le {α : Type} (l : List α) (f g : α → Rat) (h : ∀ x ∈ l, f x ≤ g x) :
+    LE (l.map f) (l.map g) := by
+  induction l with
+  | nil => exact List.Forall₂.nil
+  | cons a t ih =>
+    exact List.Forall₂.cons (h a (by simp)) (ih (fun x hx => h x (by simp [hx])))
+
+/-- an operation monotone in both arguments -/
+def Mono2 (op : Rat → Rat → Rat) : Prop := ∀ p p' q q', p ≤ p' → q ≤ q' → op p q ≤ op p' q'
+
+theorem frechetLeftRaw_mono (op : Rat → Rat → Rat) (hop : Mono2 op) {a a' b b' : List Rat}
+    (ha : LE a a') (hb : LE b b') : LE (frechetLeftRaw op a b) (frechetLeftRaw op a' b') := by
+  unfold frechetLeftRaw
+  rw [← ha.length_eq]
+  apply LE_map_of_le
+  intro i _
+  exact maxL_mono (LE.zipWith hop (ha.take _) (hb.take _).reverse) 0
+
+theorem frechetRightRaw_mono (op : Rat → Rat → Rat) (hop : Mono2 op) {a a' b b' : List Rat}
+    (ha : LE a a') (hb : LE b b') : LE (frechetRightRaw op a b) (frechetRightRaw op a' b') := by
+  unfold frechetRightRaw
+  rw [← ha.length_eq]
+  apply LE_map_of_le
+  intro i _
+  exact minL_mono (LE.zipWith hop (ha.drop _) (hb.drop _).reverse) 0
+
+/-- **Frechet rule is isotone** for every operation monotone in both arguments (no well-formedness needed) -/
+theorem iso_frechetOp (op : Rat → Rat → Rat) (hop : Mono2 op) {X X' Y Y' : PB}
+    (hX : PSub X X') (hY : PSub Y Y') : PairSub (frechetOp op X Y) (frechetOp op X' Y') :=
+  ⟨sortR_mono (frechetLeftRaw_mono op hop hX.1 hY.1), sortR_mono (frechetRightRaw_mono op hop hX.2 hY.2)⟩
+
+/-! ### four-corner rules -/
+
+/-- the corner hull of `op` on two intervals encloses every pointwise value: the property of an interval operation -/
+def Hull (op : Rat → Rat → Rat) : Prop :=
+  ∀ a b c d x y, a ≤ x → x ≤ b → c ≤ y → y ≤ d →
+    min4 (op a c) (op a d) (op b c) (op b d) ≤ op x y ∧ op x y ≤ max4 (op a c) (op a d) (op b c) (op b d)
+
+theorem min4_eq_arith (a b c d : Rat) : min4 a b c d = Arith.min4 a b c d := by
+  unfold min4 Arith.min4; rw [min_assoc (min a b) c d]
+
+theorem max4_eq_arith (a b c d : Rat) : max4 a b c d = Arith.max4 a b c d := by
+  unfold max4 Arith.max4; rw [max_assoc (max a b) c d]
+
+theorem hull_mul : Hull (· * ·) := by
+  intro a b c d x y h1 h2 h3 h4
+  rw [min4_eq_arith, max4_eq_arith]
+  exact Arith.mul_hull a b c d x y h1 h2 h3 h4
+
+theorem hull_add : Hull (· + ·) := by
+  intro a b c d x y h1 h2 h3 h4
+  simp only [min4, max4, min_le_iff, le_max_iff]
+  exact ⟨Or.inl (Or.inl (Or.inl (by linarith))), Or.inr (by linarith)⟩
+
+theorem hull_sub : Hull (· - ·) := by
+  intro a b c d x y h1 h2 h3 h4
+  simp only [min4, max4, min_le_iff, le_max_iff]
+  exact ⟨Or.inl (Or.inl (Or.inr (by linarith))), Or.inl (Or.inr (by linarith))⟩
+
+/-- one focal pair: the corner hull of nested operands is nested -/
+theorem corner_iso (op : Rat → Rat → Rat) (hop : Hull op) (a b c d a' b' c' d' : Rat)
+    (hab : a ≤ b) (hcd : c ≤ d) (ha : a' ≤ a) (hb : b ≤ b') (hc : c' ≤ c) (hd : d ≤ d') :
+    min4 (op a' c') (op a' d') (op b' c') (op b' d') ≤ min4 (op a c) (op a d) (op b c) (op b d) ∧
+    max4 (op a c) (op a d) (op b c) (op b d) ≤ max4 (op a' c') (op a' d') (op b' c') (op b' d') := by
+  have k : ∀ x y, a ≤ x → x ≤ b → c ≤ y → y ≤ d → _ := fun x y h1 h2 h3 h4 =>
+    hop a' b' c' d' x y (le_trans ha h1) (le_trans h2 hb) (le_trans hc h3) (le_trans h4 hd)
+  have ll := k a c (le_refl _) hab (le_refl _) hcd
+  have lh := k a d (le_refl _) hab hcd (le_refl _)
+  have hl := k b c hab (le_refl _) (le_refl _) hcd
+  have hh := k b d hab (le_refl _) hcd (le_refl _)
+  constructor
+  · simp only [min4, le_min_iff] at *; exact ⟨⟨⟨ll.1, lh.1⟩, hl.1⟩, hh.1⟩
+  · simp only [max4, max_le_iff] at *; exact ⟨⟨⟨ll.2, lh.2⟩, hl.2⟩, hh.2⟩
+
+theorem corner_valid (op : Rat → Rat → Rat) (a b c d : Rat) :
+    min4 (op a c) (op a d) (op b c) (op b d) ≤ max4 (op a c) (op a d) (op b c) (op b d) := by
+  simp only [min4, max4]
+  exact le_trans (min_le_left _ _) (le_trans (min_le_left _ _) (le_trans (min_le_left _ _)
+    (le_trans (le_max_left _ _) (le_trans (le_max_left _ _) (le_max_left _ _)))))
+
+/-- `cornerPair` on nested operands (the inner ones valid: `left ≤ right` step by step) -/
+theorem cornerPair_iso (op : Rat → Rat → Rat) (hop : Hull op)
+    {xl xr yl yr xl' xr' yl' yr' : List Rat}
+    (hx : LE xl xr) (hy : LE yl yr) (hxl : LE xl' xl) (hxr : LE xr xr') (hyl : LE yl' yl) (hyr : LE yr yr') :
+    PairSub (cornerPair op xl xr yl yr) (cornerPair op xl' xr' yl' yr') := by
+  induction hx generalizing yl yr xl' xr' yl' yr' with
+  | nil =>
+    cases hxl; cases hxr
+    simp [cornerPair, zip4, PairSub]
+  | @cons a b ta tb hab _ ih =>
+    cases hxl with
+    | @cons a' _ ta' _ haa hta =>
+    cases hxr with
+    | @cons _ b' _ tb' hbb htb =>
+    cases hy with
+    | nil =>
+      cases hyl; cases hyr
+      simp [cornerPair, zip4, PairSub]
+    | @cons c d tc td hcd htcd =>
+      cases hyl with
+      | @cons c' _ tc' _ hcc htc =>
+      cases hyr with
+      | @cons _ d' _ td' hdd htd =>
+      have := ih htcd hta htb htc htd
+      obtain ⟨k1, k2⟩ := corner_iso op hop a b c d a' b' c' d' hab hcd haa hbb hcc hdd
+      simp only [cornerPair, PairSub, List.zipWith_cons_cons, zip4] at this ⊢
+      exact ⟨List.Forall₂.cons k1 this.1, List.Forall₂.cons k2 this.2⟩
+
+/-- the two lists of `cornerPair` are ordered step by step -/
+theorem cornerPair_valid (op : Rat → Rat → Rat) (xl xr yl yr : List Rat) :
+    LE (cornerPair op xl xr yl yr).1 (cornerPair op xl xr yl yr).2 := by
+  induction xl generalizing xr yl yr with
+  | nil => simp [cornerPair, zip4]
+  | cons a ta ih =>
+    cases xr with
+    | nil => simp [cornerPair, zip4]
+    | cons b tb =>
+      cases yl with
+      | nil => simp [cornerPair, zip4]
+      | cons c tc =>
+        cases yr with
+        | nil => simp [cornerPair, zip4]
+        | cons d td =>
+          have := ih tb tc td
+          simp only [cornerPair, List.zipWith_cons_cons, zip4] at this ⊢
+          exact List.Forall₂.cons (corner_valid op a b c d) this
+
+/-- **perfect rule is isotone** -/
+theorem iso_perfectOp (op : Rat → Rat → Rat) (hop : Hull op) {X X' Y Y' : PB}
+    (vX : LE X.left X.right) (vY : LE Y.left Y.right) (hX : PSub X X') (hY : PSub Y Y') :
+    PairSub (perfectOp op X Y) (perfectOp op X' Y') := by
+  have := cornerPair_iso op hop vX vY hX.1 hX.2 hY.1 hY.2
+  exact ⟨sortR_mono this.1, sortR_mono this.2⟩
+
+/-- **opposite rule is isotone** -/
+theorem iso_oppositeOp (op : Rat → Rat → Rat) (hop : Hull op) {X X' Y Y' : PB}
+    (vX : LE X.left X.right) (vY : LE Y.left Y.right) (hX : PSub X X') (hY : PSub Y Y') :
+    PairSub (oppositeOp op X Y) (oppositeOp op X' Y') := by
+  have := cornerPair_iso op hop vX vY.reverse hX.1 hX.2 hY.1.reverse hY.2.reverse
+  exact ⟨sortR_mono this.1, sortR_mono this.2⟩
+
+theorem zip4_append (f : Rat → Rat → Rat → Rat → Rat) (a1 a2 a3 a4 b1 b2 b3 b4 : List Rat)
+    (h2 : a1.length = a2.length) (h3 : a1.length = a3.length) (h4 : a1.length = a4.length) :
+    zip4 f (a1 ++ b1) (a2 ++ b2) (a3 ++ b3) (a4 ++ b4) = zip4 f a1 a2 a3 a4 ++ zip4 f b1 b2 b3 b4 := by
+  induction a1 generalizing a2 a3 a4 with
+  | nil =>
+    have e2 : a2 = [] := List.length_eq_zero_iff.mp h2.symm
+    have e3 : a3 = [] := List.length_eq_zero_iff.mp h3.symm
+    have e4 : a4 = [] := List.length_eq_zero_iff.mp h4.symm
+    subst e2; subst e3; subst e4
+    simp [zip4]
+  | cons x t ih =>
+    cases a2 with
+    | nil => simp at h2
+    | cons x2 t2 =>
+    cases a3 with
+    | nil => simp at h3
+    | cons x3 t3 =>
+    cases a4 with
+    | nil => simp at h4
+    | cons x4 t4 =>
+      simp only [List.cons_append, zip4]
+      rw [ih t2 t3 t4 (by simpa using h2) (by simpa using h3) (by simpa using h4)]
+
+/-- one row of the `n × n` grid: the focal interval `[a,b]` of `x` against every focal interval of `y` -/
+theorem row_iso (op : Rat → Rat → Rat) (hop : Hull op) (a b a' b' : Rat) (hab : a ≤ b) (ha : a' ≤ a) (hb : b ≤ b')
+    {yl yr yl' yr' : List Rat} (hy : LE yl yr) (hyl : LE yl' yl) (hyr : LE yr yr') :
+    LE (zip4 min4 (yl'.map (op a')) (yr'.map (op a')) (yl'.map (op b')) (yr'.map (op b')))
+       (zip4 min4 (yl.map (op a)) (yr.map (op a)) (yl.map (op b)) (yr.map (op b))) ∧
+    LE (zip4 max4 (yl.map (op a)) (yr.map (op a)) (yl.map (op b)) (yr.map (op b)))
+       (zip4 max4 (yl'.map (op a')) (yr'.map (op a')) (yl'.map (op b')) (yr'.map (op b'))) := by
+  induction hy generalizing yl' yr' with
+  | nil =>
+    cases hyl; cases hyr
+    simp [zip4]
+  | @cons c d tc td hcd _ ih =>
+    cases hyl with
+    | @cons c' _ tc' _ hcc htc =>
+    cases hyr with
+    | @cons _ d' _ td' hdd htd =>
+      obtain ⟨i1, i2⟩ := ih htc htd
+      obtain ⟨k1, k2⟩ := corner_iso op hop a b c d a' b' c' d' hab hcd ha hb hcc hdd
+      simp only [List.map_cons, zip4]
+      exact ⟨List.Forall₂.cons k1 i1, List.Forall₂.cons k2 i2⟩
+
+theorem row_valid (op : Rat → Rat → Rat) (a b : Rat) (yl yr : List Rat) :
+    LE (zip4 min4 (yl.map (op a)) (yr.map (op a)) (yl.map (op b)) (yr.map (op b)))
+       (zip4 max4 (yl.map (op a)) (yr.map (op a)) (yl.map (op b)) (yr.map (op b))) := by
+  induction yl generalizing yr with
+  | nil => simp [zip4]
+  | cons c tc ih =>
+    cases yr with
+    | nil => simp [zip4]
+    | cons d td =>
+      simp only [List.map_cons, zip4]
+      exact List.Forall₂.cons (corner_valid op a b c d) (ih td)
+
+/-- unsorted corner minima / maxima over the `n²` grid -/
+def gridPair (op : Rat → Rat → Rat) (xl xr yl yr : List Rat) : List Rat × List Rat :=
+  (zip4 min4 (cartesian op xl yl) (cartesian op xl yr) (cartesian op xr yl) (cartesian op xr yr),
+   zip4 max4 (cartesian op xl yl) (cartesian op xl yr) (cartesian op xr yl) (cartesian op xr yr))
+
+theorem cartesian_cons (op : Rat → Rat → Rat) (a : Rat) (t b : List Rat) :
+    cartesian op (a :: t) b = b.map (op a) ++ cartesian op t b := by
+  simp [cartesian]
+
+theorem gridPair_cons (op : Rat → Rat → Rat) (a b : Rat) (ta tb yl yr : List Rat) (hlen : yl.length = yr.length) :
+    gridPair op (a :: ta) (b :: tb) yl yr =
+      ((zip4 min4 (yl.map (op a)) (yr.map (op a)) (yl.map (op b)) (yr.map (op b))) ++ (gridPair op ta tb yl yr).1,
+       (zip4 max4 (yl.map (op a)) (yr.map (op a)) (yl.map (op b)) (yr.map (op b))) ++ (gridPair op ta tb yl yr).2) := by
+  simp only [gridPair, cartesian_cons]
+  rw [zip4_append _ _ _ _ _ _ _ _ _ (by simp [hlen]) (by simp) (by simp [hlen]),
+      zip4_append _ _ _ _ _ _ _ _ _ (by simp [hlen]) (by simp) (by simp [hlen])]
+
+theorem LE.append {a a' b b' : List Rat} (h1 : LE a a') (h2 : LE b b') : LE (a ++ b) (a' ++ b') := by
+  induction h1 with
+  | nil => simpa using h2
+  | cons h _ ih => exact List.Forall₂.cons h ih
+
+theorem gridPair_iso (op : Rat → Rat → Rat) (hop : Hull op)
+    {xl xr yl yr xl' xr' yl' yr' : List Rat}
+    (hx : LE xl xr) (hy : LE yl yr) (hxl : LE xl' xl) (hxr : LE xr xr') (hyl : LE yl' yl) (hyr : LE yr yr') :
+    PairSub (gridPair op xl xr yl yr) (gridPair op xl' xr' yl' yr') := by
+  have hlen : yl.length = yr.length := hy.length_eq
+  have hlen' : yl'.length = yr'.length := by rw [hyl.length_eq, hlen, hyr.length_eq]
+  induction hx generalizing xl' xr' with
+  | nil =>
+    cases hxl; cases hxr
+    simp [gridPair, cartesian, zip4, PairSub]
+  | @cons a b ta tb hab _ ih =>
+    cases hxl with
+    | @cons a' _ ta' _ haa hta =>
+    cases hxr with
+    | @cons _ b' _ tb' hbb htb =>
+      obtain ⟨i1, i2⟩ := ih hta htb
+      obtain ⟨r1, r2⟩ := row_iso op hop a b a' b' hab haa hbb hy hyl hyr
+      rw [gridPair_cons op a b ta tb yl yr hlen, gridPair_cons op a' b' ta' tb' yl' yr' hlen']
+      exact ⟨LE.append r1 i1, LE.append r2 i2⟩
+
+theorem gridPair_valid (op : Rat → Rat → Rat) (xl xr yl yr : List Rat) (hlen : yl.length = yr.length) :
+    LE (gridPair op xl xr yl yr).1 (gridPair op xl xr yl yr).2 := by
+  induction xl generalizing xr with
+  | nil => simp [gridPair, cartesian, zip4]
+  | cons a ta ih =>
+    cases xr with
+    | nil => simp [gridPair, cartesian, zip4]
+    | cons b tb =>
+      rw [gridPair_cons op a b ta tb yl yr hlen]
+      exact LE.append (row_valid op a b yl yr) (ih tb)
+
+theorem cornersSorted_eq (op : Rat → Rat → Rat) (x y : PB) :
+    cornersSorted op x y = (sortR (gridPair op x.left x.right y.left y.right).1,
+                            sortR (gridPair op x.left x.right y.left y.right).2) := rfl
+
+/-- **independent rule is isotone** (the `n²` sorted endpoints) -/
+theorem iso_independentOp (op : Rat → Rat → Rat) (hop : Hull op) {X X' Y Y' : PB}
+    (vX : LE X.left X.right) (vY : LE Y.left Y.right) (hX : PSub X X') (hY : PSub Y Y') :
+    PairSub (independentOp op X Y) (independentOp op X' Y') := by
+  have := gridPair_iso op hop vX vY hX.1 hX.2 hY.1 hY.2
+  exact ⟨sortR_mono this.1, sortR_mono this.2⟩
+
+/-- **naive rule is isotone**: first `n` sorted minima, last `n` sorted maxima -/
+theorem iso_naiveOp (op : Rat → Rat → Rat) (hop : Hull op) {X X' Y Y' : PB}
+    (vX : LE X.left X.right) (vY : LE Y.left Y.right) (hX : PSub X X') (hY : PSub Y Y') :
+    PairSub (naiveOp op X Y) (naiveOp op X' Y') := by
+  obtain ⟨h1, h2⟩ := iso_independentOp op hop vX vY hX hY
+  have hn : X'.left.length = X.left.length := hX.1.length_eq
+  simp only [naiveOp, independentOp, PairSub] at *
+  rw [hn]
+  exact ⟨h1.take _, h2.drop _⟩
+
+/-! ## the constructor on well-formed bounds -/
+
+/-- well-formed p-box with `n` steps: lengths, both bounds sorted, `left ≤ right` step by step -/
+structure WF (n : Nat) (P : PB) : Prop where
+  llen : P.left.length = n
+  rlen : P.right.length = n
+  lsorted : P.left.Pairwise (· ≤ ·)
+  rsorted : P.right.Pairwise (· ≤ ·)
+  valid : LE P.left P.right
+
+theorem isIncreasing_of_sorted (l : List Rat) (h : l.Pairwise (· ≤ ·)) : isIncreasing l = true := by
+  induction l with
+  | nil => rfl
+  | cons a t ih =>
+    cases t with
+    | nil => rfl
+    | cons b u =>
+      rw [List.pairwise_cons] at h
+      simp only [isIncreasing, Bool.and_eq_true, decide_eq_true_eq]
+      exact ⟨h.1 b (by simp), ih h.2⟩
+
+theorem allGe_eq_of_LE {l r : List Rat} (h : LE l r) (hg : allGe l r = true) : l = r := by
+  induction h with
+  | nil => rfl
+  | @cons a b s t hab _ ih =>
+    simp only [allGe, List.zip_cons_cons, List.all_cons, Bool.and_eq_true, decide_eq_true_eq, ge_iff_le] at hg
+    have e : a = b := le_antisymm hab hg.1
+    subst e
+    rw [ih (by simpa [allGe] using hg.2)]
+
+theorem lexGe_eq_of_LE {l r : List Rat} (h : LE l r) (hg : lexGe l r = true) : l = r := by
+  induction h with
+  | nil => rfl
+  | @cons a b s t hab _ ih =>
+    unfold lexGe at hg
+    have h1 : ¬ a > b := not_lt.mpr hab
+    simp only [h1, if_false] at hg
+    by_cases h2 : a < b
+    · simp [h2] at hg
+    · simp only [h2, if_false] at hg
+      have e : a = b := le_antisymm hab (not_lt.mp h2)
+      subst e
+      rw [ih hg]
+
+theorem lexGe_of_LE {l r : List Rat} (h : LE r l) : lexGe l r = true := by
+  induction h with
+  | nil => rfl
+  | @cons b a t s hba _ ih =>
+    unfold lexGe
+    by_cases h1 : a > b
+    · simp [h1]
+    · have h2 : ¬ a < b := not_lt.mpr hba
+      simp [h1, h2, ih]
+
+theorem boundSteps_eq (n : Nat) (b : List Rat) (h : b.length = n) : boundSteps n b = .ok b := by
+  simp [boundSteps, h]
+
+/-- bounds ordered step by step do not cross (the constructor's last check) -/
+theorem noCross_of_LE {l r : List Rat} (h : LE l r) : (l.zip r).any (fun p => decide (p.1 > p.2)) = false := by
+  induction h with
+  | nil => rfl
+  | @cons a b s t hab _ ih =>
+    simp only [List.zip_cons_cons, List.any_cons, ih, Bool.or_false, decide_eq_false_iff_not, not_lt]
+    exact hab
+
+/-- on well-formed bounds the constructor stores them unchanged (arrays or lists) -/
+theorem mk_ok (n : Nat) (lists : Bool) (l r : List Rat) (hl : l.length = n) (hr : r.length = n)
+    (sl : l.Pairwise (· ≤ ·)) (sr : r.Pairwise (· ≤ ·)) (hle : LE l r) : mk n lists l r = .ok ⟨l, r⟩ := by
+  have il := isIncreasing_of_sorted l sl
+  have ir := isIncreasing_of_sorted r sr
+  have bl := boundSteps_eq n l hl
+  have br := boundSteps_eq n r hr
+  have hlr : l.length = r.length := by rw [hl, hr]
+  have nc := noCross_of_LE hle
+  cases lists with
+  | true =>
+    by_cases h : lexGe l r = true
+    · have e : l = r := lexGe_eq_of_LE hle h
+      subst e
+      simp only [mk, h, if_true, bl, bind, Except.bind, ne_eq, not_true_eq_false, if_false, il, Bool.not_true,
+        Bool.or_self, Bool.false_eq_true, nc]
+    · simp only [Bool.not_eq_true] at h
+      simp only [mk, h, if_true, bl, br, bind, Except.bind, ne_eq, hlr, not_true_eq_false, if_false, il, ir, Bool.not_true,
+        Bool.or_self, Bool.false_eq_true, nc]
+  | false =>
+    by_cases h : allGe l r = true
+    · have e : l = r := allGe_eq_of_LE hle h
+      subst e
+      simp only [mk, h, if_true, bl, bind, Except.bind, ne_eq, not_true_eq_false, if_false, il, Bool.not_true,
+        Bool.or_self, Bool.false_eq_true, nc]
+    · simp only [Bool.not_eq_true] at h
+      simp only [mk, h, hlr, if_true, bl, br, bind, Except.bind, ne_eq, not_true_eq_false, if_false, il, ir, Bool.not_true,
+        Bool.or_self, Bool.false_eq_true, nc]
+
+/-- bounds handed over in the wrong order as Python lists (`left ≥ right` step by step) are switched -/
+theorem mk_ok_switched (n : Nat) (l r : List Rat) (hl : l.length = n) (hr : r.length = n)
+    (sl : l.Pairwise (· ≤ ·)) (sr : r.Pairwise (· ≤ ·)) (hge : LE r l) : mk n true l r = .ok ⟨r, l⟩ := by
+  unfold mk
+  have nc := noCross_of_LE hge
+  simp [lexGe_of_LE hge, boundSteps_eq n l hl, boundSteps_eq n r hr, isIncreasing_of_sorted l sl,
+    isIncreasing_of_sorted r sr, bind, Except.bind, hl, hr]
+  simpa using nc
+
+theorem WF.of_mk {n : Nat} {l r : List Rat} (hl : l.length = n) (hr : r.length = n)
+    (sl : l.Pairwise (· ≤ ·)) (sr : r.Pairwise (· ≤ ·)) (hle : LE l r) : WF n ⟨l, r⟩ :=
+  ⟨hl, hr, sl, sr, hle⟩
+
+theorem LE.getElem {l l' : List Rat} (h : LE l l') (i : Nat) (hi : i < l.length) (hi' : i < l'.length) :
+    l[i] ≤ l'[i] := (LE_iff_get.mp h).2 i hi hi'
+
+/-- Frechet: the raw left bound is below the raw right bound at every step (well-formed operands) -/
+theorem frechet_valid (op : Rat → Rat → Rat) (hop : Mono2 op) (a b A B : List Rat) (n : Nat)
+    (ha : a.length = n) (hb : b.length = n) (hA : A.length = n) (hB : B.length = n)
+    (sA : A.Pairwise (· ≤ ·)) (sB : B.Pairwise (· ≤ ·)) (haA : LE a A) (hbB : LE b B) :
+    LE (frechetLeftRaw op a b) (frechetRightRaw op A B) := by
+  rw [LE_iff_get]
+  refine ⟨by rw [frechetLeftRaw_length, frechetRightRaw_length, ha, hA], fun i hi hi' => ?_⟩
+  rw [frechetLeftRaw_length] at hi
+  obtain ⟨v, hv, -, j, hj, hatt⟩ := frechetLeftRaw_spec op a b (by omega) i hi
+  obtain ⟨w, hw, -, t, ht, hatt'⟩ := frechetRightRaw_spec op A B n hA hB i (by omega)
+  have e1 : (frechetLeftRaw op a b)[i] = v := by
+    have := List.getElem?_eq_getElem (l := frechetLeftRaw op a b) (i := i) (by rw [frechetLeftRaw_length]; exact hi)
+    rw [this] at hv; exact Option.some.inj hv
+  have e2 : (frechetRightRaw op A B)[i] = w := by
+    have := List.getElem?_eq_getElem (l := frechetRightRaw op A B) (i := i) hi'
+    rw [this] at hw; exact Option.some.inj hw
+  rw [e1, e2, hatt, hatt']
+  apply hop
+  · have h1 : a[j] ≤ A[j]'(by omega) := haA.getElem j (by omega) (by omega)
+    refine le_trans h1 ?_
+    rcases Nat.lt_or_ge j (i + t) with h | h
+    · exact (List.pairwise_iff_getElem.mp sA) j (i + t) (by omega) (by omega) h
+    · have : j = i + t := by omega
+      subst this; exact le_refl _
+  · have h1 : b[i - j] ≤ B[i - j]'(by omega) := hbB.getElem (i - j) (by omega) (by omega)
+    refine le_trans h1 ?_
+    rcases Nat.lt_or_ge (i - j) (n - 1 - t) with h | h
+    · exact (List.pairwise_iff_getElem.mp sB) (i - j) (n - 1 - t) (by omega) (by omega) h
+    · have : i - j = n - 1 - t := by omega
+      simp [this]
+
+/-! ### condensation (`n²` values of the independent rule down to `n`) -/
+
+theorem getD_of_lt (l : List Rat) (i : Nat) (d : Rat) (h : i < l.length) : l.getD i d = l[i] :=
+  (List.getElem_eq_getD d).symm
+
+theorem getD_of_ge (l : List Rat) (i : Nat) (d : Rat) (h : l.length ≤ i) : l.getD i d = d := by
+  simp [List.getD, List.getElem?_eq_none h]
+
+theorem condense_length (n : Nat) (b : List Rat) : (condense n b).length = n := by simp [condense]
+
+theorem condenseIdx_lt (len n k : Nat) (hlen : 0 < len) (hk : k < n) : condenseIdx len n k < len := by
+  unfold condenseIdx
+  split
+  · exact hlen
+  · rename_i h
+    have hn : 0 < n - 1 := by omega
+    have : k * (len - 1) / (n - 1) ≤ len - 1 := by
+      apply Nat.div_le_of_le_mul
+      have : k ≤ n - 1 := by omega
+      exact Nat.mul_le_mul_right _ this
+    omega
+
+theorem condenseIdx_mono (len n k k' : Nat) (h : k ≤ k') : condenseIdx len n k ≤ condenseIdx len n k' := by
+  unfold condenseIdx
+  split
+  · exact le_refl _
+  · exact Nat.div_le_div_right (Nat.mul_le_mul_right _ h)
+
+theorem condense_mono (n : Nat) {b b' : List Rat} (h : LE b b') : LE (condense n b) (condense n b') := by
+  unfold condense
+  rw [← h.length_eq]
+  apply LE_map_of_le
+  intro k _
+  rcases Nat.lt_or_ge (condenseIdx b.length n k) b.length with hi | hi
+  · have hi' : condenseIdx b.length n k < b'.length := by rw [← h.length_eq]; exact hi
+    rw [getD_of_lt _ _ _ hi, getD_of_lt _ _ _ hi']
+    exact h.getElem _ hi hi'
+  · have hi' : b'.length ≤ condenseIdx b.length n k := by rw [← h.length_eq]; exact hi
+    rw [getD_of_ge _ _ _ hi, getD_of_ge _ _ _ hi']
+
+theorem condense_sorted (n : Nat) (b : List Rat) (hb : 0 < b.length) (s : b.Pairwise (· ≤ ·)) :
+    (condense n b).Pairwise (· ≤ ·) := by
+  unfold condense
+  rw [List.pairwise_map]
+  have hr : (List.range n).Pairwise (· < ·) := List.pairwise_lt_range
+  have hmem : ∀ k ∈ List.range n, k < n := fun k hk => List.mem_range.mp hk
+  refine (List.Pairwise.and_mem.mp hr).imp ?_
+  intro k k' ⟨hk, hk', hlt⟩
+  have i1 := condenseIdx_lt b.length n k hb (hmem k hk)
+  have i2 := condenseIdx_lt b.length n k' hb (hmem k' hk')
+  rw [getD_of_lt _ _ _ i1, getD_of_lt _ _ _ i2]
+  rcases Nat.lt_or_ge (condenseIdx b.length n k) (condenseIdx b.length n k') with h | h
+  · exact (List.pairwise_iff_getElem.mp s) _ _ i1 i2 h
+  · have : condenseIdx b.length n k = condenseIdx b.length n k' :=
+      le_antisymm (condenseIdx_mono _ _ _ _ (le_of_lt hlt)) h
+    simp [this]
+
+/-- longer well-formed bounds are condensed by the constructor -/
+theorem mk_ok_condense (n m : Nat) (l r : List Rat) (hl : l.length = m) (hr : r.length = m) (hm : n < m)
+    (sl : l.Pairwise (· ≤ ·)) (sr : r.Pairwise (· ≤ ·)) (hle : LE l r) :
+    mk n false l r = .ok ⟨condense n l, condense n r⟩ ∧ WF n ⟨condense n l, condense n r⟩ := by
+  have hlp : 0 < l.length := by omega
+  have hrp : 0 < r.length := by omega
+  have il := isIncreasing_of_sorted _ (condense_sorted n l hlp sl)
+  have ir := isIncreasing_of_sorted _ (condense_sorted n r hrp sr)
+  have bl : boundSteps n l = .ok (condense n l) := by simp [boundSteps, hl, hm]
+  have br : boundSteps n r = .ok (condense n r) := by simp [boundSteps, hr, hm]
+  have hlr : l.length = r.length := by rw [hl, hr]
+  refine ⟨?_, ⟨condense_length n l, condense_length n r, condense_sorted n l hlp sl, condense_sorted n r hrp sr,
+    condense_mono n hle⟩⟩
+  have nc := noCross_of_LE (condense_mono n hle)
+  by_cases h : allGe l r = true
+  · have e : l = r := allGe_eq_of_LE hle h
+    subst e
+    simp [mk, h, bl, il, bind, Except.bind, condense_length]
+    simpa using nc
+  · simp only [Bool.not_eq_true] at h
+    simp [mk, h, bl, br, il, ir, bind, Except.bind, hlr, condense_length]
+    simpa using nc
+
+/-! ### lengths of the raw results -/
+
+theorem zip4_length (f : Rat → Rat → Rat → Rat → Rat) (a b c d : List Rat) (n : Nat)
+    (ha : a.length = n) (hb : b.length = n) (hc : c.length = n) (hd : d.length = n) :
+    (zip4 f a b c d).length = n := by
+  induction a generalizing b c d n with
+  | nil => simp at ha; subst ha; simp [zip4]
+  | cons x t ih =>
+    cases b with
+    | nil => simp at hb; subst hb; simp at ha
+    | cons x2 t2 =>
+    cases c with
+    | nil => simp at hc; subst hc; simp at ha
+    | cons x3 t3 =>
+    cases d with
+    | nil => simp at hd; subst hd; simp at ha
+    | cons x4 t4 =>
+      cases n with
+      | zero => simp at ha
+      | succ k =>
+        simp only [zip4, List.length_cons, Nat.add_right_cancel_iff] at *
+        exact ih t2 t3 t4 k ha hb hc hd
+
+theorem cornerPair_length (op : Rat → Rat → Rat) (xl xr yl yr : List Rat) (n : Nat)
+    (h1 : xl.length = n) (h2 : xr.length = n) (h3 : yl.length = n) (h4 : yr.length = n) :
+    (cornerPair op xl xr yl yr).1.length = n ∧ (cornerPair op xl xr yl yr).2.length = n := by
+  simp only [cornerPair]
+  constructor <;> apply zip4_length <;> simp [List.length_zipWith, h1, h2, h3, h4]
+
+theorem cartesian_length (op : Rat → Rat → Rat) (a b : List Rat) :
+    (cartesian op a b).length = a.length * b.length := by
+  induction a with
+  | nil => simp [cartesian]
+  | cons x t ih => rw [cartesian_cons, List.length_append, ih]; simp [Nat.succ_mul, Nat.add_comm]
+
+theorem gridPair_length (op : Rat → Rat → Rat) (xl xr yl yr : List Rat) (n : Nat)
+    (h1 : xl.length = n) (h2 : xr.length = n) (h3 : yl.length = n) (h4 : yr.length = n) :
+    (gridPair op xl xr yl yr).1.length = n * n ∧ (gridPair op xl xr yl yr).2.length = n * n := by
+  simp only [gridPair]
+  constructor <;> apply zip4_length <;> simp [cartesian_length, h1, h2, h3, h4]
+
+/-- a raw result of length `n` (or longer, then condensed) through the constructor, for a nested pair -/
+theorem rule_public (n m : Nat) (hm : m = n ∨ n < m) (p p' : List Rat × List Rat) (h : PairSub p p')
+    (l1 : p.1.length = m) (l2 : p.2.length = m) (l1' : p'.1.length = m) (l2' : p'.2.length = m)
+    (s1 : p.1.Pairwise (· ≤ ·)) (s2 : p.2.Pairwise (· ≤ ·)) (s1' : p'.1.Pairwise (· ≤ ·)) (s2' : p'.2.Pairwise (· ≤ ·))
+    (v : LE p.1 p.2) (v' : LE p'.1 p'.2) :
+    ∃ R R', mk n false p.1 p.2 = .ok R ∧ mk n false p'.1 p'.2 = .ok R' ∧ PSub R R' ∧ WF n R ∧ WF n R' := by
+  rcases hm with hm | hm
+  · subst hm
+    exact ⟨⟨p.1, p.2⟩, ⟨p'.1, p'.2⟩, mk_ok _ false _ _ l1 l2 s1 s2 v, mk_ok _ false _ _ l1' l2' s1' s2' v', h,
+      ⟨l1, l2, s1, s2, v⟩, ⟨l1', l2', s1', s2', v'⟩⟩
+  · obtain ⟨e, w⟩ := mk_ok_condense n m p.1 p.2 l1 l2 hm s1 s2 v
+    obtain ⟨e', w'⟩ := mk_ok_condense n m p'.1 p'.2 l1' l2' hm s1' s2' v'
+    exact ⟨_, _, e, e', ⟨condense_mono n h.1, condense_mono n h.2⟩, w, w'⟩
+
+/-- facts about one raw rule on well-formed operands -/
+structure RuleFacts (n m : Nat) (p : List Rat × List Rat) : Prop where
+  l1 : p.1.length = m
+  l2 : p.2.length = m
+  s1 : p.1.Pairwise (· ≤ ·)
+  s2 : p.2.Pairwise (· ≤ ·)
+  v : LE p.1 p.2
+
+theorem frechetOp_facts (op : Rat → Rat → Rat) (hop : Mono2 op) (n : Nat) {X Y : PB} (wX : WF n X) (wY : WF n Y) :
+    RuleFacts n n (frechetOp op X Y) :=
+  ⟨by simp [frechetOp, sortR_length, frechetLeftRaw_length, wX.llen],
+   by simp [frechetOp, sortR_length, frechetRightRaw_length, wX.rlen],
+   sortR_sorted _, sortR_sorted _,
+   sortR_mono (frechet_valid op hop X.left Y.left X.right Y.right n wX.llen wY.llen wX.rlen wY.rlen
+     wX.rsorted wY.rsorted wX.valid wY.valid)⟩
+
+theorem perfectOp_facts (op : Rat → Rat → Rat) (n : Nat) {X Y : PB} (wX : WF n X) (wY : WF n Y) :
+    RuleFacts n n (perfectOp op X Y) := by
+  obtain ⟨h1, h2⟩ := cornerPair_length op X.left X.right Y.left Y.right n wX.llen wX.rlen wY.llen wY.rlen
+  exact ⟨by simp [perfectOp, sortR_length, h1], by simp [perfectOp, sortR_length, h2], sortR_sorted _, sortR_sorted _,
+    sortR_mono (cornerPair_valid op _ _ _ _)⟩
+
+theorem oppositeOp_facts (op : Rat → Rat → Rat) (n : Nat) {X Y : PB} (wX : WF n X) (wY : WF n Y) :
+    RuleFacts n n (oppositeOp op X Y) := by
+  obtain ⟨h1, h2⟩ := cornerPair_length op X.left X.right Y.left.reverse Y.right.reverse n wX.llen wX.rlen
+    (by simp [wY.llen]) (by simp [wY.rlen])
+  exact ⟨by simp [oppositeOp, sortR_length, h1], by simp [oppositeOp, sortR_length, h2], sortR_sorted _, sortR_sorted _,
+    sortR_mono (cornerPair_valid op _ _ _ _)⟩
+
+theorem independentOp_facts (op : Rat → Rat → Rat) (n : Nat) {X Y : PB} (wX : WF n X) (wY : WF n Y) :
+    RuleFacts n (n * n) (independentOp op X Y) := by
+  obtain ⟨h1, h2⟩ := gridPair_length op X.left X.right Y.left Y.right n wX.llen wX.rlen wY.llen wY.rlen
+  have hlen : Y.left.length = Y.right.length := by rw [wY.llen, wY.rlen]
+  exact ⟨by simp [independentOp, cornersSorted_eq, sortR_length, h1], by simp [independentOp, cornersSorted_eq, sortR_length, h2],
+    sortR_sorted _, sortR_sorted _, sortR_mono (gridPair_valid op _ _ _ _ hlen)⟩
+
+theorem sq_cases (n : Nat) : n * n = n ∨ n < n * n := by
+  match n with
+  | 0 => exact Or.inl rfl
+  | 1 => exact Or.inl rfl
+  | k + 2 => right; nlinarith
+
+/-- one step from a raw rule to the public method -/
+theorem public_of_facts (n m : Nat) (hm : m = n ∨ n < m) {p p' : List Rat × List Rat}
+    (f : RuleFacts n m p) (f' : RuleFacts n m p') (h : PairSub p p') :
+    ∃ R R', mk n false p.1 p.2 = .ok R ∧ mk n false p'.1 p'.2 = .ok R' ∧ PSub R R' ∧ WF n R ∧ WF n R' :=
+  rule_public n m hm p p' h f.l1 f.l2 f'.l1 f'.l2 f.s1 f.s2 f'.s1 f'.s2 f.v f'.v
+
+/-- **`X.add(Y, dependency)` is isotone** under every dependency, for all well-formed operands of any size:
+both runs return, the results are well formed and nested -/
+theorem add_iso (n : Nat) (d : Dep) (hd : d ≠ .unknown) {X X' Y Y' : PB}
+    (wX : WF n X) (wX' : WF n X') (wY : WF n Y) (wY' : WF n Y') (hX : PSub X X') (hY : PSub Y Y') :
+    ∃ R R', add n d X Y = .ok R ∧ add n d X' Y' = .ok R' ∧ PSub R R' ∧ WF n R ∧ WF n R' := by
+  cases d with
+  | f =>
+    exact public_of_facts n n (Or.inl rfl) (frechetOp_facts _ add_mono2 n wX wY) (frechetOp_facts _ add_mono2 n wX' wY')
+      (iso_frechetOp _ add_mono2 hX hY)
+  | p =>
+    exact public_of_facts n n (Or.inl rfl) (perfectOp_facts _ n wX wY) (perfectOp_facts _ n wX' wY')
+      (iso_perfectOp _ hull_add wX.valid wY.valid hX hY)
+  | o =>
+    exact public_of_facts n n (Or.inl rfl) (oppositeOp_facts _ n wX wY) (oppositeOp_facts _ n wX' wY')
+      (iso_oppositeOp _ hull_add wX.valid wY.valid hX hY)
+  | i =>
+    exact public_of_facts n (n * n) (sq_cases n) (independentOp_facts _ n wX wY) (independentOp_facts _ n wX' wY')
+      (iso_independentOp _ hull_add wX.valid wY.valid hX hY)
+  | unknown => exact absurd rfl hd
 
 end Pun.Iso
